@@ -102,6 +102,80 @@ func deepCanonTo(b *strings.Builder, v reflect.Value) {
 	}
 }
 
+// semCanon renders a value so that two values have the same rendering iff apiequality.Semantic.DeepEqual holds
+// (on the shapes API types use): nil and empty slices/maps/byte strings coincide, pointers are followed (nil stays
+// distinct from a pointer to a zero value), metav1.Time by instant, everything else exact.
+func semCanon(v reflect.Value) string {
+	var b strings.Builder
+	semCanonTo(&b, v)
+	return b.String()
+}
+
+func semCanonTo(b *strings.Builder, v reflect.Value) {
+	switch v.Kind() {
+	case reflect.Ptr, reflect.Interface:
+		if v.IsNil() {
+			b.WriteString("nil")
+		} else {
+			b.WriteString("&")
+			semCanonTo(b, v.Elem())
+		}
+	case reflect.Slice:
+		if v.IsNil() || v.Len() == 0 {
+			b.WriteString("∅")
+			return
+		}
+		fallthrough
+	case reflect.Array:
+		b.WriteString("[")
+		for i := 0; i < v.Len(); i++ {
+			if i > 0 {
+				b.WriteString(",")
+			}
+			semCanonTo(b, v.Index(i))
+		}
+		b.WriteString("]")
+	case reflect.Map:
+		if v.IsNil() || v.Len() == 0 {
+			b.WriteString("∅")
+			return
+		}
+		type kv struct{ k, v string }
+		var kvs []kv
+		for _, k := range v.MapKeys() {
+			kvs = append(kvs, kv{semCanon(k), semCanon(v.MapIndex(k))})
+		}
+		sort.Slice(kvs, func(i, j int) bool { return kvs[i].k < kvs[j].k })
+		b.WriteString("{")
+		for i, e := range kvs {
+			if i > 0 {
+				b.WriteString(",")
+			}
+			b.WriteString(e.k + ":" + e.v)
+		}
+		b.WriteString("}")
+	case reflect.Struct:
+		if t, ok := v.Interface().(metav1.Time); ok {
+			b.WriteString("time(" + strconv.FormatInt(t.UTC().UnixNano(), 10) + ")")
+			return
+		}
+		b.WriteString(v.Type().Name() + "{")
+		for i := 0; i < v.NumField(); i++ {
+			if v.Type().Field(i).PkgPath != "" {
+				continue
+			}
+			if i > 0 {
+				b.WriteString(",")
+			}
+			b.WriteString(v.Type().Field(i).Name + ":")
+			semCanonTo(b, v.Field(i))
+		}
+		b.WriteString("}")
+	default:
+		deepCanonTo(b, v)
+	}
+}
+
 // canonJSON re-marshals any JSON-ish value with sorted keys.
 func canonJSON(v interface{}) string {
 	b, _ := json.Marshal(v)
